@@ -7,7 +7,7 @@
 import TrompModel.Model.CxxBase
 namespace Tromp.Cxx
 
-/-- `impl::includes_range_checker::operator()` — translated from include/trompeloeil/matcher/range.hpp:396 -/
+/-- `impl::includes_range_checker::operator()` — translated from include/trompeloeil/matcher/range.hpp:401 -/
 def includes_range {α μ : Type} (accepts : μ → α → Bool) (range : List α) (elements : List μ) : Bool := Id.run do
   let mut matchers : List μ := []
   for element in elements do
